@@ -30,7 +30,7 @@ pub fn lexemes(kind: &str, k: SyntaxKind) -> Vec<String> {
         "FLOAT" => &["1.0", "1.5e3", "0.1"],
         "INTEGER" => &["1", "0", "1_000", "0x1", "0b1"],
         "STRING" => &["\"s\"", "\"\"", "\"é\\\"💣\"", "\"a\nb\""],
-        "ERROR" => &["$", "\"", "é", "\r", "&", "'", "~", "\"unterminated \\", "`", "?", "^", ";"],
+        "ERROR" => &["$", "\"", "é", "\r", "&", "'", "~", "\"unterminated \\", "`", "?", "^", ";", "\u{FEFF}", "\u{00A0}", "\u{2028}", "ℝ", "💣"],
         _ => {
             // symbols and keywords: Display is the quoted token text
             let s = format!("{k}");
@@ -47,6 +47,7 @@ pub fn chr(name: &str) -> &'static str {
         "sp" => " ", "nl" => "\n", "cr" => "\r", "+" => "+", "-" => "-", "<" => "<", ">" => ">", "=" => "=",
         "|" => "|", "{" => "{", "}" => "}", "(" => "(", ")" => ")", "[" => "[", "]" => "]", "#" => "#",
         "@" => "@", ":" => ":", "," => ",", "!" => "!", "c2" => "ß", "c4" => "💣",
+        "c3" => "ℝ", "tab" => "\t", "bom" => "\u{FEFF}", "nbsp" => "\u{00A0}", "ls" => "\u{2028}",
         o => panic!("unknown char name {o}"),
     }
 }
